@@ -789,6 +789,325 @@ def pinned_inputs():
     ]
 
 
+
+# ------------------------------------------------------------------------------------------------
+# deep-nesting probes: every recursive construct, through every recursive position, in every host, at depths
+# below / at / above the compiler's caps and far above them.  Expected: a story, SyntaxError or ValueError; never
+# another exception (RecursionError!), never a hang.
+# ------------------------------------------------------------------------------------------------
+
+INLINE_CAP, BLOCK_CAP = 50, 100        # content.MAX_INLINE_DEPTH, blocks.MAX_BLOCK_DEPTH (evidence only)
+INLINE_DEPTHS = [1, 2, 7, 48, 49, 50, 51, 52, 60, 120, 600, 3000]
+BLOCK_DEPTHS = [1, 2, 19, 21, 98, 99, 100, 101, 102, 110, 600, 3000]
+PYEXPR_DEPTHS = [60, 250, 600, 3000]
+INLINE_POSITIONS = ["then", "else", "alternate", "alternate-else-first", "both", "then-among-text", "else-among-text",
+                    "else-empty-then", "then-empty-else"]
+
+
+def nest_inline(depth, position, rng):
+    """An inline conditional nested `depth` levels through the given position(s)."""
+    pre, suf = [], []
+    for k in range(depth):                # k = 0 is the innermost level
+        side = position
+        if position in ("alternate", "alternate-else-first"):
+            side = "then" if (k % 2 == 0) == (position == "alternate") else "else"
+        elif position == "both":
+            side = "then" if k else "both-leaf"
+        if side == "then":
+            pre.append("{c ? ")
+            suf.append(" | e}")
+        elif side == "else":
+            pre.append("{c ? t | ")
+            suf.append("}")
+        elif side == "then-among-text":
+            pre.append("{c ? a {v} ")
+            suf.append(" b | e}")
+        elif side == "else-among-text":
+            pre.append("{c ? t | a {v} ")
+            suf.append(" b}")
+        elif side == "else-empty-then":
+            pre.append("{c ? | ")
+            suf.append("}")
+        elif side == "then-empty-else":
+            pre.append("{c ? ")
+            suf.append(" |}")
+        else:                              # both-leaf: the innermost level of `both`
+            pre.append("{c ? x | ")
+            suf.append("}")
+    core = "x"
+    s_ = "".join(reversed(pre)) + core + "".join(suf)
+    if position == "both" and depth > 1:   # a second chain, through the else sides, beside the then-chain
+        s_ = "{c ? " + s_ + " | " + "{c ? t | " * (depth - 1) + "y" + "}" * (depth - 1) + "}"
+    return s_
+
+
+INLINE_HOSTS = {
+    "content-line": lambda S: [":: A", S],
+    "content-line-with-text-and-tag": lambda S: [":: A", "Before " + S + " after ^tag"],
+    "glue-line": lambda S: [":: A", S + "<>", "tail"],
+    "choice-text": lambda S: [":: A", "+ [" + S + "] -> A"],
+    "conditional-choice-text": lambda S: [":: A", "* {c} [Go " + S + "] -> A ^t"],
+    "join-choice-text": lambda S: [":: A", "+ [" + S + "] -> @join", "    inside", "@join", "after"],
+    "if-body": lambda S: [":: A", "@if c:", S, "@endif"],
+    "if-body-indented": lambda S: [":: A", "@if c:", "    " + S, "@endif"],
+    "elif-body": lambda S: [":: A", "@if c:", "t", "@elif d:", S, "@endif"],
+    "else-body": lambda S: [":: A", "@if c:", "t", "@else:", S, "@endif"],
+    "legacy-if-body": lambda S: [":: A", "<<if c>>", S, "<<endif>>"],
+    "for-body": lambda S: [":: A", "@for i in xs:", "  " + S, "@endfor"],
+    "for-in-if-body": lambda S: [":: A", "@if c:", "@for i in xs:", S, "@endfor", "@endif"],
+    "choice-text-in-if": lambda S: [":: A", "@if c:", "+ [" + S + "] -> A", "@endif"],
+    "choice-text-in-for": lambda S: [":: A", "@for i in xs:", "+ [" + S + "] -> A", "@endfor"],
+    "join-block": lambda S: [":: A", "+ [go] -> @join", "    " + S, "@join", "after"],
+    "join-block-second-line": lambda S: [":: A", "+ [go] -> @join", "    first", "    " + S, "+ [stay] -> @join", "@join"],
+    "before-first-passage": lambda S: [S, ":: A", "t"],
+}
+
+BLOCK_KINDS = ["if-then", "if-else", "if-elif", "for", "if-for-alternate", "legacy-if", "legacy-for", "legacy-at-alternate"]
+BLOCK_FORMS = ["closed", "unclosed", "closers-only-half"]
+
+
+def nest_blocks(depth, kind, form, indent):
+    """Block openers nested `depth` levels through one branch position, the innermost holding a text line."""
+    head, tail = [], []
+    for k in range(depth):                 # k = 0 is the outermost level
+        ind = " " * (k if indent else 0)
+        kk = kind
+        if kind == "if-for-alternate":
+            kk = "if-then" if k % 2 == 0 else "for"
+        elif kind == "legacy-at-alternate":
+            kk = "legacy-if" if k % 2 == 0 else "if-then"
+        if kk == "if-then":
+            head.append(ind + f"@if c{k % 7}:")
+            tail.append(ind + "@endif")
+        elif kk == "if-else":
+            head += [ind + "@if c:", ind + "t", ind + "@else:"]
+            tail.append(ind + "@endif")
+        elif kk == "if-elif":
+            head += [ind + "@if c:", ind + "t", ind + "@elif d:"]
+            tail.append(ind + "@endif")
+        elif kk == "for":
+            head.append(ind + f"@for i{k % 5} in xs:")
+            tail.append(ind + "@endfor")
+        elif kk == "legacy-if":
+            head.append(ind + "<<if c>>")
+            tail.append(ind + "<<endif>>")
+        else:
+            head.append(ind + "<<for i in xs>>")
+            tail.append(ind + "<<endfor>>")
+    tail.reverse()
+    if form == "unclosed":
+        tail = []
+    elif form == "closers-only-half":
+        tail = tail[:len(tail) // 2]
+    return head + [(" " * (depth if indent else 0)) + "innermost {v}"] + tail
+
+
+BLOCK_HOSTS = {
+    "passage-body": lambda B: [":: A", "t"] + B + ["+ [go] -> A"],
+    "first-in-passage": lambda B: [":: A"] + B,
+    "join-block": lambda B: [":: A", "+ [go] -> @join"] + ["    " + l for l in B] + ["@join", "after"],
+    "before-first-passage": lambda B: B + [":: A", "t"],
+}
+
+PYEXPR_KINDS = {
+    "parens": lambda d: "(" * d + "1" + ")" * d,
+    "unary-minus": lambda d: "-" * d + "1",
+    "not": lambda d: "not " * d + "x",
+    "list": lambda d: "[" * d + "]" * d,
+    "tuple-in-list": lambda d: "[(" * d + "1" + ",)]" * d,
+    "call": lambda d: "f(" * d + "1" + ")" * d,
+    "subscript": lambda d: "x" + "[0]" * d,
+    "attribute": lambda d: "x" + ".a" * d,
+    "binary-chain": lambda d: "1" + " + 1" * d,
+    "ternary": lambda d: "1 if x else " * d + "0",
+    "lambda": lambda d: "lambda: " * d + "1",
+    "dict-in-call": lambda d: "f(k=" * d + "1" + ")" * d,
+    "string-of-parens": lambda d: "\"" + "(" * d + "\"",
+}
+PYEXPR_HOSTS = {
+    "statement": lambda E: [":: A", "~ x = " + E],
+    "statement-in-if": lambda E: [":: A", "@if c:", "~ x = " + E, "@endif"],
+    "statement-multiline": lambda E: [":: A", "~ x = [", "    " + E + ",", "]"],
+    "jump-argument": lambda E: [":: A", "-> T(" + E + ")", ":: T(x)", "t"],
+    "jump-keyword-argument": lambda E: [":: A", "-> T(x=" + E + ")", ":: T(x)", "t"],
+    "choice-argument": lambda E: [":: A", "+ [go] -> T(" + E + ")", ":: T(x)", "t"],
+    "choice-argument-in-if": lambda E: [":: A", "@if c:", "+ [go] -> T(" + E + ")", "@endif", ":: T(x)", "t"],
+    "jump-argument-in-for": lambda E: [":: A", "@for i in xs:", "-> T(" + E + ")", "@endfor", ":: T(x)", "t"],
+    "argument-to-parameterless": lambda E: [":: A", "-> T(" + E + ")", ":: T", "t"],
+    "choice-condition": lambda E: [":: A", "+ {" + E + "} [go] -> A"],
+    "if-condition": lambda E: [":: A", "@if " + E + ":", "t", "@endif"],
+    "for-collection": lambda E: [":: A", "@for i in " + E + ":", "t", "@endfor"],
+    "text-expression": lambda E: [":: A", "Value {" + E + "}"],
+    "inline-conditional-condition": lambda E: [":: A", "{" + E + " ? a | b}"],
+    "parameter-default": lambda E: [":: A", "t", ":: T(x=" + E + ")", "t"],
+    "render-argument": lambda E: [":: A", "@render card(" + E + ")"],
+    "python-block": lambda E: [":: A", "@py:", "x = " + E, "@endpy"],
+}
+OTHER_NESTING = {
+    "braces-in-text": lambda d: [":: A", "{" * d + "x" + "}" * d],
+    "braces-in-choice-text": lambda d: [":: A", "+ [" + "{" * d + "x" + "}" * d + "] -> A"],
+    "braces-in-choice-condition": lambda d: [":: A", "+ {" + "{" * d + "x" + "}" * d + "} [go] -> A"],
+    "brackets-in-choice-text": lambda d: [":: A", "+ [" + "[" * d + "x" + "]" * d + "] -> A"],
+    "parens-in-passage-parameters": lambda d: [":: A", "t", ":: T(x=" + "(" * d + "1" + ")" * d + ", y=2)", "t"],
+    "multiline-statement-lines": lambda d: [":: A", "~ x = ["] + ["["] * d + ["]"] * d + ["]"],
+    "multiline-statement-never-closed": lambda d: [":: A", "~ x = ["] + ["["] * d,
+    "unbalanced-open-braces": lambda d: [":: A", "{c ? " * d + "x"],
+    "unbalanced-close-braces": lambda d: [":: A", "x" + " | e}" * d],
+    "choices-in-join-blocks": lambda d: [":: A"] + [l for k in range(d) for l in ("+ [c] -> @join", "    t {v}")] + ["@join"],
+    "join-sections": lambda d: [":: A"] + [l for k in range(d) for l in ("+ [c] -> @join", "@join", "t")],
+    "tags": lambda d: [":: A", "text" + " ^t:p" * d],
+    "passages-chain": lambda d: [l for k in range(d) for l in (f":: P{k}", f"-> P{(k + 1) % d}")],
+}
+
+
+def depth_class(d, cap):
+    if cap is None:
+        return f"d{d}"
+    return ("below-cap" if d < cap - 2 else "at-cap" if d <= cap + 2 else "above-cap" if d <= 3 * cap else "far-above-cap") + f":d{d}"
+
+
+def deep_inputs(rng, quick):
+    """[(family, lines)]: family = deep:<construct>:<position>:<host>:<depth class>:d<depth>."""
+    out = []
+    for pos in INLINE_POSITIONS:
+        for host, mk in INLINE_HOSTS.items():
+            for d in INLINE_DEPTHS:
+                if pos == "both" and d > 600:
+                    continue
+                out.append((f"deep:inline-conditional:{pos}:{host}:{depth_class(d, INLINE_CAP)}", mk(nest_inline(d, pos, rng))))
+    for kind in BLOCK_KINDS:
+        for form in BLOCK_FORMS:
+            for host, mk in BLOCK_HOSTS.items():
+                for d in BLOCK_DEPTHS:
+                    for indent in ((False, True) if d <= 110 else (False,)):
+                        if host != "passage-body" and (form != "closed" and kind not in ("if-then", "for")):
+                            continue          # the other hosts: every kind closed, the two plain kinds in every form
+                        out.append((f"deep:block:{kind}/{form}{'/indented' if indent else ''}:{host}:{depth_class(d, BLOCK_CAP)}",
+                                    mk(nest_blocks(d, kind, form, indent))))
+    # inline conditionals inside nested blocks: both recursions at once
+    for pos in ("then", "else", "alternate"):
+        for d_block in (3, 99, 100):
+            for d_inline in (49, 50, 51, 600):
+                body = nest_blocks(d_block, "if-for-alternate", "closed", False)
+                k = body.index("innermost {v}")
+                body[k] = nest_inline(d_inline, pos, rng)
+                out.append((f"deep:inline-conditional-in-blocks:{pos}:blocks-d{d_block}:{depth_class(d_inline, INLINE_CAP)}",
+                            [":: A"] + body))
+    for kind, mk_e in PYEXPR_KINDS.items():
+        for host, mk in PYEXPR_HOSTS.items():
+            for d in PYEXPR_DEPTHS:
+                out.append((f"deep:python-expression:{kind}:{host}:d{d}", mk(mk_e(d))))
+    for kind, mk in OTHER_NESTING.items():
+        for d in (3, 60, 600, 3000):
+            out.append((f"deep:other:{kind}:-:d{d}", mk(d)))
+    return out
+
+
+# ------------------------------------------------------------------------------------------------
+# call-shape matrix: targets with 0..3 parameters (with / without defaults) x argument shapes (too few, exact, too
+# many positional; keywords known / unknown / repeated / clashing with a positional; * and **; malformed texts) x
+# call sites (choice, jump, nested in @if/@elif/@else/@for, in a join block, ...).  Everything else in the story is
+# valid, so that the call site is what validate_passage_arguments sees.
+# ------------------------------------------------------------------------------------------------
+
+PARAM_CONFIGS = [
+    [], [("x", None)], [("x", "1")], [("x", None), ("y", None)], [("x", None), ("y", "2")], [("x", "1"), ("y", "2")],
+    [("x", None), ("y", None), ("z", None)], [("x", None), ("y", None), ("z", "3")], [("x", None), ("y", "2"), ("z", "x + y")],
+    [("x", "1"), ("y", "x * 2"), ("z", "[1, 2]")],
+]
+MALFORMED_ARGS = ["1 2", "(", ")", "1,,2", ",", "1, ", "x for x in y", "\"(\") + (\")\"", "\")\"", "1 # c", "=1", "x=", "x==1",
+                  "lambda: 0", "1; 2", "'", "{", "1, (2", "yield", " "]
+
+
+def call_shapes(params):
+    """[(shape name, argument text or None for 'no parentheses')] for a target with these parameters."""
+    names = [n for n, _ in params]
+    n = len(names)
+    vals = ["1", "\"a, b\"", "f(2, 3)", "[4]", "n + 1"]
+    out = [("no-parentheses", None), ("empty-parentheses", "")]
+    for k in range(1, n + 3):
+        cls = "exact" if k == n else "too-many-positional" if k > n else "fewer-positional"
+        out.append((f"positional-{k}:{cls}", ", ".join(vals[i % len(vals)] for i in range(k))))
+    if n:
+        out.append(("all-by-keyword", ", ".join(f"{a}={vals[i]}" for i, a in enumerate(names))))
+        out.append(("all-by-keyword-reversed", ", ".join(f"{a}={vals[i]}" for i, a in reversed(list(enumerate(names))))))
+        out.append(("first-positional-rest-by-keyword", ", ".join(["1"] + [f"{a}=2" for a in names[1:]])))
+        out.append(("last-by-keyword-only", f"{names[-1]}=5"))
+        out.append(("first-by-keyword-only", f"{names[0]}=5"))
+        out.append(("positional-and-keyword-clash", f"1, {names[0]}=2"))
+        out.append(("positional-and-keyword-clash-last", ", ".join(["1"] * n + [f"{names[-1]}=2"])))
+        out.append(("keyword-repeated", f"{names[0]}=1, {names[0]}=2"))
+        out.append(("keyword-before-positional", f"{names[0]}=1, 2"))
+        out.append(("exact-plus-unknown-keyword", ", ".join(["1"] * n + ["zz=9"])))
+        out.append(("too-many-plus-unknown-keyword", ", ".join(["1"] * (n + 1) + ["zz=9"])))
+        out.append(("too-many-plus-known-keyword", ", ".join(["1"] * (n + 1) + [f"{names[0]}=9"])))
+    out.append(("unknown-keyword", "zz=1"))
+    out.append(("star-args", "*xs"))
+    out.append(("star-args-after-exact", ", ".join(["1"] * n + ["*xs"])))
+    out.append(("double-star", "**d"))
+    out.append(("double-star-after-exact", ", ".join(["1"] * n + ["**d"])))
+    for m in MALFORMED_ARGS:
+        out.append(("malformed:" + "".join(ch if ch.isalnum() else "_" for ch in m)[:12], m))
+    return out
+
+
+def _hdr(name, params):
+    return ":: " + name + ("(" + ", ".join(a if d is None else f"{a}={d}" for a, d in params) + ")" if params else "")
+
+
+CALL_SITES = {
+    "choice": lambda c: ["+ [Go] -> " + c],
+    "one-time-choice-with-tags": lambda c: ["* [Go] -> " + c + " ^once ^k:v"],
+    "conditional-choice": lambda c: ["+ {n > 1} [Go] -> " + c],
+    "choice-with-comment": lambda c: ["+ [Go] -> " + c + " // note"],
+    "jump": lambda c: ["-> " + c],
+    "jump-after-text": lambda c: ["Some text.", "-> " + c],
+    "choice-in-if": lambda c: ["@if n:", "+ [Go] -> " + c, "@endif"],
+    "jump-in-if": lambda c: ["@if n:", "    -> " + c, "@endif"],
+    "choice-in-elif": lambda c: ["@if n:", "t", "@elif m:", "+ [Go] -> " + c, "@endif"],
+    "jump-in-else": lambda c: ["@if n:", "t", "@else:", "-> " + c, "@endif"],
+    "choice-in-for": lambda c: ["@for i in [1]:", "  + [Go {i}] -> " + c, "@endfor"],
+    "jump-in-for": lambda c: ["@for i in [1]:", "-> " + c, "@endfor"],
+    "choice-in-for-in-if": lambda c: ["@if n:", "@for i in [1]:", "+ [Go] -> " + c, "@endfor", "@endif"],
+    "jump-in-if-in-for": lambda c: ["@for i in [1]:", "@if i:", "-> " + c, "@endif", "@endfor"],
+    "choice-in-legacy-if": lambda c: ["<<if n>>", "+ [Go] -> " + c, "<<endif>>"],
+    "jump-in-join-block": lambda c: ["+ [Wait] -> @join", "    -> " + c, "@join", "after"],
+    "choice-beside-join-choice": lambda c: ["+ [Wait] -> @join", "    inside", "+ [Go] -> " + c, "@join", "after"],
+    "choice-after-join": lambda c: ["+ [Wait] -> @join", "@join", "after", "+ [Go] -> " + c],
+}
+JOIN_CALLS = [("join-choice-with-arguments", lambda a: ["+ [Wait] -> @join" + ("" if a is None else f"({a})"), "    inside", "@join"]),
+              ("jump-to-@join-with-arguments", lambda a: ["-> @join" + ("" if a is None else f"({a})")])]
+
+
+def call_matrix(rng, quick):
+    """[(family, lines, compare_with_model)].  The direct oracle sees the full matrix; the model is compared on every
+    (parameters, shape) pair at one drawn site plus a drawn share of the rest (quick) or on everything (thorough)."""
+    out = []
+    for ci, params in enumerate(PARAM_CONFIGS):
+        nreq = sum(1 for _, d in params if d is None)
+        cfg = f"params-{len(params)}-required-{nreq}"
+        shapes = call_shapes(params)
+        for shape, args in shapes:
+            sites = list(CALL_SITES)
+            drawn = rng.choice(sites)
+            for site in sites:
+                call = "T" + ("" if args is None else f"({args})")
+                body = CALL_SITES[site](call)
+                target = [_hdr("T", params), "Target {n}."]
+                caller = [":: Start", "~ n = 1"] + body
+                other = [":: Other", "-> Start"]
+                parts = rng.choice([[caller, target, other], [target, caller, other], [caller, other, target]])
+                lines = [l for part in parts for l in part + [""]]
+                if parts[0] is not caller:
+                    lines = ["@start Start"] + lines
+                cmp_ = (not quick) or site == drawn or rng.random() < 0.04
+                out.append((f"call-shape:{cfg}:{shape.split(':')[0] if shape.startswith('malformed') else shape}:{site}", lines, cmp_))
+    for name, mk in JOIN_CALLS:
+        for args in (None, "", "1", "1, 2", "x=1", "1 2"):
+            out.append((f"call-shape:@join:{name}:{'none' if args is None else 'args'}", [":: Start"] + mk(args) + ["after"], True))
+    return out
+
+
 # ------------------------------------------------------------------------------------------------
 # run
 # ------------------------------------------------------------------------------------------------
